@@ -32,7 +32,7 @@ var workerBin = filepath.Join(buildDir, "simworker")
 
 func goEnv() []string {
 	env := os.Environ()
-	env = append(env, "GOFLAGS=-mod=mod", "GOPROXY=off", "GOSUMDB=off", "GOTOOLCHAIN=local", "CGO_ENABLED=0")
+	env = append(env, "GOFLAGS=-mod=mod", "GOPROXY=off", "GOSUMDB=off", "GOTOOLCHAIN=local", "CGO_ENABLED=0", "GOEXPERIMENT=norandomizedheapbase64")
 	return env
 }
 
@@ -85,10 +85,12 @@ func execCase(bin string, c *cf.Case, verbose bool) *outcome {
 		cmd.Stdin = bytes.NewReader(data)
 		var stdout, stderr bytes.Buffer
 		cmd.Stdout, cmd.Stderr = &stdout, &stderr
-		cmd.Env = append(os.Environ(), "GOTRACEBACK=all")
-		if verbose {
-			cmd.Env = append(cmd.Env, "SIM_VERBOSE=1")
-		}
+		// fixed, minimal environment: a run must be a pure function of the case file and the binary
+		// (heap addresses - hence the iteration order of large pointer-keyed maps - depend on it)
+		// (GOMAXPROCS=1 from the very start: with more Ps the runtime initialises on an arbitrary P and the
+		// allocations made before main() land in a different mcache, shifting later addresses)
+		cmd.Env = []string{"GOTRACEBACK=all", "GOMAXPROCS=1"}
+		_ = verbose
 		t0 := time.Now()
 		err := cmd.Run()
 		o.wallMs = time.Since(t0).Milliseconds()
